@@ -27,8 +27,10 @@ import tr_scoid
 MANIFEST = {
     "text": "Coq theorems about an executable model of _generate_id/_choose_one_hash/_make_json_serializable over the C16 "
             "model of the canonicalizer, uuid5 abstract: the id depends only on the contributing properties that are "
-            "present (id_only_contrib), not on argument order, nested member order or the order of the contributing "
-            "list (id_order_indep*), the hashed string is the RFC 8785 text of exactly the present contributing "
+            "present (id_only_contrib), not on argument order, the order of the contributing list, or the order of nested "
+            "dictionaries / nested object members at any depth (id_order_indep_args, _contrib_list, _nested; the last "
+            "unconditionally for the repaired hash fallback and, for the pinned one, when `hashes` holds a preferred "
+            "algorithm), the hashed string is the RFC 8785 text of exactly the present contributing "
             "properties with one hash chosen MD5, SHA-1, SHA-256, SHA-512, else the name that sorts first "
             "(id_input_spec, id_hash_choice; the pinned code takes the first in dictionary order: refuted variant with "
             "witness), different contributing JSON values give different hashed strings (id_input_injective) and hence "
@@ -756,7 +758,7 @@ def gen_custom_value(rng, kind):
 def gen_groups(rng, tier, start_index=0):
     """-> list of groups; a group is a list of (case, relation) with relation in
     'base' | 'same' (must have the id of the base) | 'diff' (a contributing value was changed)"""
-    per_type = 40 if tier != "thorough" else 800
+    per_type = 40 if tier != "thorough" else 400
     groups = []
     counter = [start_index]
 
@@ -818,7 +820,7 @@ def gen_groups(rng, tier, start_index=0):
             groups.append(g)
 
     # custom observables
-    n_custom = 60 if tier != "thorough" else 1200
+    n_custom = 60 if tier != "thorough" else 600
     for j in range(n_custom):
         counter[0] += 1
         ty = "x-verif-%d" % counter[0]
@@ -857,17 +859,17 @@ def gen_groups(rng, tier, start_index=0):
             groups.append([(mk("file", items, "ctor"), "base"), (mk("file", list(reversed(items)), "parse"), "same")])
             counter[0] += 1
             ty = "x-verif-%d" % counter[0]
-            groups.append([(mk(ty, [("p", F(x)), ("q", I(int(x)) if abs(x) < 2 ** 53 else "big")], rng.choice(["ctor", "parse"]),
-                               custom={"props": [["p", "float"], ["q", "int" if abs(x) < 2 ** 53 else "str"]], "contrib": ["p", "q"]},
+            groups.append([(mk(ty, [("val_f", F(x)), ("val_q", I(int(x)) if abs(x) < 2 ** 53 else "big")], rng.choice(["ctor", "parse"]),
+                               custom={"props": [["val_f", "float"], ["val_q", "int" if abs(x) < 2 ** 53 else "str"]], "contrib": ["val_f", "val_q"]},
                                allow_custom=True), "base")])
 
     # exceptions raised inside _generate_id (no object exists: the model is fed the raw input)
     for bad, kind in ((O([("a", None)]), "dict"), (O([("a", O([("b", A([I(1), None]))]))]), "dict"),
                       ({"f": "nan"}, "float"), ({"f": "inf"}, "float"), ({"f": "-inf"}, "float")):
-        for contrib in (["p"], []):
+        for contrib in (["val"], []):
             counter[0] += 1
             ty = "x-verif-%d" % counter[0]
-            groups.append([(mk(ty, [("p", bad)], "ctor", custom={"props": [["p", kind]], "contrib": contrib},
+            groups.append([(mk(ty, [("val", bad)], "ctor", custom={"props": [["val", kind]], "contrib": contrib},
                                allow_custom=True, raw_model=True), "base")])
     return groups
 
